@@ -6,7 +6,7 @@
     cowat / supst interpreted by an arbitrary function family [fn]. *)
 From Coq Require Import ZArith QArith Qreals Reals List Bool.
 From Gen Require Import GenThermo GenTraced.
-From P Require Import Expr Common Regions.
+From P Require Import Expr Common Regions Guard97.
 Import ListNotations.
 Close Scope Q_scope.
 Open Scope R_scope.
@@ -24,3 +24,20 @@ Theorem regions_out_of_bounds : forall (fn67 fn97 : fnR) (coef67 coef97 : nat ->
 Proof. exact regions_none. Qed.
 Print Assumptions regions_out_of_bounds.
 
+
+(** ** the IAPWS-97 side answers on the whole common range, limits included (exactly 100 MPa,
+       exactly 350 degC): otherwise the agreement clause has nothing to compare with there *)
+Theorem iapws97_cowat_defined_on_common_range : forall (fn : fnR) (coef : nat -> R) (t p : R),
+  t <= Q2R (350 # 1) -> p <= Q2R (100000000 # 1) -> has_value (runR cowat97_traced fn coef [t; p]).
+Proof. exact cowat97_defined. Qed.
+Print Assumptions iapws97_cowat_defined_on_common_range.
+
+Theorem iapws97_supst_defined_on_common_range : forall (fn : fnR) (coef : nat -> R) (t p : R),
+  t <= Q2R (1000 # 1) -> p <= Q2R (100000000 # 1) -> has_value (runR supst97_traced fn coef [t; p]).
+Proof. exact supst97_defined. Qed.
+Print Assumptions iapws97_supst_defined_on_common_range.
+
+Theorem iapws97_sat_defined_on_common_range : forall (fn : fnR) (coef : nat -> R) (t : R),
+  0 <= t <= Q2R i97_tcritical_Q -> has_value (runR sat97_traced fn coef [t]).
+Proof. exact sat97_defined. Qed.
+Print Assumptions iapws97_sat_defined_on_common_range.
